@@ -5,8 +5,8 @@ import (
 	"hash/fnv"
 	"net"
 	"net/http/httptest"
-	"sync"
 	"strings"
+	"sync"
 
 	"github.com/0xReLogic/Helios/internal/config"
 	"github.com/0xReLogic/Helios/internal/loadbalancer"
@@ -231,6 +231,15 @@ func init() {
 					// interleave traffic from another client
 					if rnd.Intn(2) == 0 {
 						sys.call("GET", "/noise", fmt.Sprintf("198.51.100.%d:5", rnd.Intn(256)), nil, nil)
+					}
+					// ... and read-only observation by an operator: listings and metrics move nobody
+					switch rnd.Intn(6) {
+					case 0:
+						listBackends(sys.admin())
+						o.Obs("listings_between_requests", 1)
+					case 1:
+						sys.metricsJSON()
+						sys.healthJSON()
 					}
 					var w *httptest.ResponseRecorder
 					func() {
